@@ -16,6 +16,51 @@ type region struct {
 	lo, hi int    // leaf range [lo,hi)
 	obj    Term   // object / backing array / map reference
 	text   string
+	any    bool // `any T.f`: the field of every object of type T
+}
+
+// parseAnyRegion resolves `T.f.g` (T a struct type of pkg or pkgname.T) to the type and leaf range of the field.
+func (x *Exec) parseAnyRegion(m string, pkg *ssa.Package) (types.Type, int, int) {
+	parts := strings.Split(strings.TrimSpace(m), ".")
+	var T types.Type
+	rest := parts[1:]
+	if pkg != nil {
+		if tn, ok := pkg.Pkg.Scope().Lookup(parts[0]).(*types.TypeName); ok {
+			T = tn.Type()
+		}
+	}
+	if T == nil && len(parts) >= 2 {
+		if tp := x.ck.pkgByName(parts[0]); tp != nil {
+			if tn, ok := tp.Scope().Lookup(parts[1]).(*types.TypeName); ok {
+				T = tn.Type()
+				rest = parts[2:]
+			}
+		}
+	}
+	if T == nil {
+		panic(fmt.Sprintf("%s: modifies any %s: unknown type", x.funcName(), m))
+	}
+	lo, cur := 0, T
+	for _, f := range rest {
+		stt, ok := cur.Underlying().(*types.Struct)
+		if !ok {
+			panic(fmt.Sprintf("%s: modifies any %s: %v is not a struct", x.funcName(), m, cur))
+		}
+		found := false
+		for i := 0; i < stt.NumFields(); i++ {
+			if stt.Field(i).Name() == f {
+				off, _ := fieldRange(stt, i)
+				lo += off
+				cur = stt.Field(i).Type()
+				found = true
+				break
+			}
+		}
+		if !found {
+			panic(fmt.Sprintf("%s: modifies any %s: no field %s", x.funcName(), m, f))
+		}
+	}
+	return T, lo, lo + len(flatten(cur))
 }
 
 // frameRegions evaluates the contract's modifies clauses at function entry.
@@ -38,7 +83,7 @@ func (x *Exec) frameRegions() []region {
 				panic(fmt.Sprintf("%s: modifies: unknown global %q", x.funcName(), m))
 			}
 			gp := x.globalPtr(x.entry, g)
-			x.frame = append(x.frame, region{"H", typeKey(gp.P.Base), 0, len(flatten(gp.P.Base)), gp.P.Obj, m})
+			x.frame = append(x.frame, region{"H", typeKey(gp.P.Base), 0, len(flatten(gp.P.Base)), gp.P.Obj, m, false})
 		case strings.HasPrefix(m, "mem(") && strings.HasSuffix(m, ")"):
 			v, err := env.evalString(m[4 : len(m)-1])
 			if err != nil {
@@ -48,14 +93,25 @@ func (x *Exec) frameRegions() []region {
 			if !ok {
 				panic(fmt.Sprintf("%s: modifies %s: not a slice", x.funcName(), m))
 			}
-			x.frame = append(x.frame, region{"M", typeKey(sl.Elem()), 0, len(flatten(sl.Elem())), v.sliceArr(), m})
+			x.frame = append(x.frame, region{"M", typeKey(sl.Elem()), 0, len(flatten(sl.Elem())), v.sliceArr(), m, false})
 		case strings.HasPrefix(m, "map(") && strings.HasSuffix(m, ")"):
 			v, err := env.evalString(m[4 : len(m)-1])
 			if err != nil {
 				panic(fmt.Sprintf("%s: modifies %s: %v", x.funcName(), m, err))
 			}
-			x.frame = append(x.frame, region{"map", typeKey(v.T.Underlying()), 0, 0, v.one(), m})
+			x.frame = append(x.frame, region{"map", typeKey(v.T.Underlying()), 0, 0, v.one(), m, false})
 		case strings.HasPrefix(m, "ghost "):
+		case strings.HasPrefix(m, "sink "):
+			// what sits behind an interface parameter is unknown at entry: any bytes.Buffer
+			for _, h := range x.anyRegions("bytes.Buffer", x.fn.Pkg) {
+				x.frame = append(x.frame, region{kind: "H", base: typeKey(h.base), lo: h.lo, hi: h.hi, text: m, any: true})
+				x.frame = append(x.frame, region{kind: "M", base: typeKey(h.base), lo: h.lo, hi: h.hi, text: m, any: true})
+			}
+		case strings.HasPrefix(m, "any "):
+			for _, h := range x.anyRegions(m[4:], x.fn.Pkg) {
+				x.frame = append(x.frame, region{kind: "H", base: typeKey(h.base), lo: h.lo, hi: h.hi, text: m, any: true})
+				x.frame = append(x.frame, region{kind: "M", base: typeKey(h.base), lo: h.lo, hi: h.hi, text: m, any: true})
+			}
 		default:
 			p, err := env.evalAddr(m)
 			if err != nil {
@@ -63,9 +119,9 @@ func (x *Exec) frameRegions() []region {
 			}
 			switch p.Kind {
 			case pHeap:
-				x.frame = append(x.frame, region{"H", typeKey(p.Base), p.Off, p.Off + len(flatten(p.Sub)), p.Obj, m})
+				x.frame = append(x.frame, region{"H", typeKey(p.Base), p.Off, p.Off + len(flatten(p.Sub)), p.Obj, m, false})
 			case pElem, pArr:
-				x.frame = append(x.frame, region{"M", typeKey(p.Base), p.Off, p.Off + len(flatten(p.Sub)), p.Obj, m})
+				x.frame = append(x.frame, region{"M", typeKey(p.Base), p.Off, p.Off + len(flatten(p.Sub)), p.Obj, m, false})
 			}
 		}
 	}
@@ -79,6 +135,9 @@ func (x *Exec) allowedWrite(st *State, kind, base string, lo, hi int, obj Term) 
 	cs = append(cs, mkCmp(">", obj, x.entry.top))
 	for _, r := range x.frameRegions() {
 		if r.kind == kind && r.base == base && (kind == "map" || (r.lo <= lo && hi <= r.hi)) {
+			if r.any {
+				return tTrue
+			}
 			cs = append(cs, mkEq(obj, r.obj))
 		}
 	}
@@ -111,7 +170,7 @@ func (x *Exec) frameCall(st *State, ins ssa.Instruction, c *ssa.CallCommon, ctr 
 		x.oblige(st, "frame", label, tFalse, ins.Pos(), "callee without modifies clause may write anywhere")
 		return
 	}
-	if ctr.Pure || ctr.Neutral {
+	if ctr.Pure || (ctr.Neutral && !ctr.HasMod) {
 		return
 	}
 	pnames := x.paramNames(ctr, c)
@@ -144,6 +203,35 @@ func (x *Exec) frameCall(st *State, ins ssa.Instruction, c *ssa.CallCommon, ctr 
 			ok = x.allowedWrite(st, "map", typeKey(v.T.Underlying()), 0, 0, v.one())
 		case strings.HasPrefix(m, "ghost "):
 			continue
+		case strings.HasPrefix(m, "sink ") && x.sinkPointee(env, strings.TrimSpace(m[5:])) != nil:
+			p := x.sinkPointee(env, strings.TrimSpace(m[5:]))
+			if p.Kind == pLocal {
+				continue
+			}
+			if p.Kind == pHeap && len(flatten(p.Sub)) == 0 {
+				continue
+			}
+			kind := "H"
+			if p.Kind == pElem || p.Kind == pArr {
+				kind = "M"
+			}
+			ok = x.allowedWrite(st, kind, typeKey(p.Base), p.Off, p.Off+len(flatten(p.Sub)), p.Obj)
+		case strings.HasPrefix(m, "any ") || strings.HasPrefix(m, "sink "):
+			if strings.HasPrefix(m, "sink ") {
+				m = "any bytes.Buffer"
+			}
+			ok = tTrue
+			for _, h := range x.anyRegions(m[4:], env.pkg) {
+				covered := false
+				for _, r := range x.frameRegions() {
+					if r.any && r.kind == "H" && r.base == typeKey(h.base) && r.lo <= h.lo && h.hi <= r.hi {
+						covered = true
+					}
+				}
+				if !covered {
+					ok = tFalse
+				}
+			}
 		default:
 			p, err := env.evalAddr(m)
 			if err != nil {
@@ -160,4 +248,92 @@ func (x *Exec) frameCall(st *State, ins ssa.Instruction, c *ssa.CallCommon, ctr 
 		}
 		x.oblige(st, "frame", fmt.Sprintf("%s.%d", label, k), ok, ins.Pos(), "callee modifies "+m+" within the caller's modifies clause")
 	}
+}
+
+// anyHome is one place where objects of a type live: heap arrays of a struct type (own objects, slice
+// elements) restricted to the leaf range occupied by the embedded value.
+type anyHome struct {
+	base   types.Type
+	lo, hi int
+}
+
+// embeddedRanges lists the leaf ranges of S that are occupied by values of type T embedded by value
+// (struct fields and fixed arrays of structs are flattened in place).
+func embeddedRanges(S, T types.Type, off int, depth int) [][2]int {
+	if types.Identical(S, T) {
+		return [][2]int{{off, off + len(flatten(S))}}
+	}
+	if depth > 6 {
+		return nil
+	}
+	var out [][2]int
+	if stt, ok := S.Underlying().(*types.Struct); ok {
+		o := off
+		for i := 0; i < stt.NumFields(); i++ {
+			ft := stt.Field(i).Type()
+			out = append(out, embeddedRanges(ft, T, o, depth+1)...)
+			o += len(flatten(ft))
+		}
+	}
+	return out
+}
+
+// anyHomes enumerates every struct type known to the program that holds a T by value (including T itself).
+func (ck *Checker) anyHomes(T types.Type) []anyHome {
+	key := typeKey(T)
+	if h, ok := ck.anyHomeCache[key]; ok {
+		return h
+	}
+	seen := map[*types.Package]bool{}
+	var pkgs []*types.Package
+	var visit func(p *types.Package)
+	visit = func(p *types.Package) {
+		if p == nil || seen[p] {
+			return
+		}
+		seen[p] = true
+		pkgs = append(pkgs, p)
+		for _, q := range p.Imports() {
+			visit(q)
+		}
+	}
+	for _, sp := range ck.prog.AllPackages() {
+		visit(sp.Pkg)
+	}
+	var out []anyHome
+	for _, p := range pkgs {
+		sc := p.Scope()
+		for _, n := range sc.Names() {
+			tn, ok := sc.Lookup(n).(*types.TypeName)
+			if !ok || tn.IsAlias() {
+				continue
+			}
+			S := tn.Type()
+			if _, ok := S.Underlying().(*types.Struct); !ok {
+				continue
+			}
+			if named, ok := S.(*types.Named); ok && named.TypeParams().Len() > 0 {
+				continue
+			}
+			for _, r := range embeddedRanges(S, T, 0, 0) {
+				out = append(out, anyHome{S, r[0], r[1]})
+			}
+		}
+	}
+	if ck.anyHomeCache == nil {
+		ck.anyHomeCache = map[string][]anyHome{}
+	}
+	ck.anyHomeCache[key] = out
+	return out
+}
+
+// anyRegions resolves `any T[.f...]` to every place such a field lives: in objects of type T and in
+// every struct type that embeds a T by value.
+func (x *Exec) anyRegions(m string, pkg *ssa.Package) []anyHome {
+	T, lo, hi := x.parseAnyRegion(m, pkg)
+	var out []anyHome
+	for _, h := range x.ck.anyHomes(T) {
+		out = append(out, anyHome{h.base, h.lo + lo, h.lo + hi})
+	}
+	return out
 }
